@@ -44,6 +44,9 @@ pub enum Verdict {
     HangInDrop,
     /// one directory was queued for scanning more than `sched::RESCAN_LIMIT` times: endless rescan
     Livelock,
+    /// a worker task made no progress for 20 s although every command of the workload takes
+    /// milliseconds (bounded-progress predicate `sched::stuck_task`)
+    StuckTask,
     /// harness watchdog fired: inconclusive, never a violation
     Watchdog,
 }
@@ -62,6 +65,7 @@ impl Verdict {
             Verdict::Deadlock => "DEADLOCK".into(),
             Verdict::HangInDrop => "HANG-IN-DROP".into(),
             Verdict::Livelock => "LIVELOCK(rescanning a directory without end)".into(),
+            Verdict::StuckTask => "STUCK-TASK(a worker never finished its task)".into(),
             Verdict::MainPanic(m) => format!("PANIC({m})"),
             Verdict::Watchdog => "watchdog".into(),
         }
@@ -206,6 +210,9 @@ pub fn run_inproc(cfg: &RunCfg, spec: Spec, cwd: Option<&Path>, log_events: bool
                     Ok(Signal::Deadlock) => break Verdict::Deadlock, // coordinator thread stays parked (leaked)
                     Ok(Signal::Livelock) => break Verdict::Livelock,
                     Err(_) => {}
+                }
+                if ctl.stuck_task(Duration::from_secs(20)) {
+                    break Verdict::StuckTask; // worker and coordinator threads stay blocked (leaked)
                 }
                 if ctl.stuck_in_send(Duration::from_secs(10)) {
                     break Verdict::HangInDrop; // coordinator thread stays blocked (leaked)
